@@ -10,6 +10,7 @@
 //   - member removal / duplication / reordering / injection / renaming,
 //   - adversarial archives whose SHA256SUMS was recomputed by the attacker (repeated members,
 //     odd SHA256SUMS syntax, odd JSON, odd tar entry types),
+//
 // and prints, per operation, what the Lean model (CV.Tar) must reproduce: the stream that
 // archive/tar presents (independent scanning pass) goes on the operation line, the verdict of
 // the real code (ok + metadata + state digest, or the error site) on the answer line.
@@ -176,6 +177,12 @@ func classify(err error) string {
 		default:
 			return "sums-scan"
 		}
+	}
+	switch msg {
+	case `snapshot is missing the "meta.json" file`:
+		return "missing-meta"
+	case `snapshot is missing the "state.bin" file`:
+		return "missing-state"
 	}
 	if strings.HasSuffix(msg, " unread uncompressed bytes remain") {
 		return "gz-extra"
@@ -416,14 +423,14 @@ func genMeta(r *hx.RNG, size int) *raft.SnapshotMeta {
 }
 
 type base struct {
-	md    *raft.SnapshotMeta
-	cmeta []byte // canonical metadata
-	state []byte
-	tarB  []byte
-	s     stream
-	regs  []region
-	res   result
-	tag   string
+	md     *raft.SnapshotMeta
+	cmeta  []byte // canonical metadata
+	state  []byte
+	tarB   []byte
+	s      stream
+	regs   []region
+	res    result
+	tag    string
 	orcTok string // oracle of the untouched archive
 }
 
@@ -511,7 +518,8 @@ func (l *localSink) mergeInto(run *hx.Run) {
 }
 
 // checkDamaged is the monitor shared by all damaged-archive cases.
-//   mustReject: the property demands rejection for this kind of damage.
+//
+//	mustReject: the property demands rejection for this kind of damage.
 func checkDamaged(run sink, b *base, kind string, mustReject bool, res result, ops ...string) {
 	if res.ok {
 		same := true
@@ -769,21 +777,21 @@ func runMemberMutations(run *hx.Run, r *hx.RNG, b *base) {
 	}
 	// identity re-serialisation (other mtime, same members)
 	do("member-identity", false, es)
-	// removals
+	// removals: an archive that lacks meta.json, state.bin or SHA256SUMS must be rejected, also
+	// when the removed member was empty (an absent member hashes like an empty one, so only
+	// the explicit presence check of read can notice — regression signature below)
 	for i := range es {
 		mod := append(append([]entry(nil), es[:i]...), es[i+1:]...)
-		switch {
-		case es[i].name == "SHA256SUMS":
-			do("remove-SHA256SUMS", true, mod)
-		case len(es[i].data) == 0:
-			// An absent member is hashed as the empty string, exactly like an empty one: the
-			// code cannot tell the two apart (see Props/C20.lean missing_member_counterexample).
-			// Extraction must still be identical.
-			run.Tag("observed:empty-" + es[i].name + "-member-removed")
-			do("remove-empty-"+es[i].name, false, mod)
-		default:
-			do("remove-"+es[i].name, true, mod)
+		kind := "remove-" + es[i].name
+		if len(es[i].data) == 0 {
+			kind = "remove-empty-" + es[i].name
 		}
+		res, _, op := emitRead(run, buildTar(mod))
+		if res.ok && es[i].name != "SHA256SUMS" {
+			run.Violate("archive:missing-member-accepted", fmt.Sprintf("archive without its %s member (%d bytes in the original) is accepted", es[i].name, len(es[i].data)), []string{op})
+		}
+		checkDamaged(run, b, kind, es[i].name == "SHA256SUMS", res, op)
+		run.Case(b.tag+"/"+kind+"/"+op, true)
 	}
 	// duplications (adjacent, at the end, at the front)
 	for i := range es {
@@ -1028,6 +1036,15 @@ func runAdversarial(run *hx.Run, r *hx.RNG) {
 				cat = append(cat, m.data...)
 			}
 		}
+		for _, want := range []string{"meta.json", "state.bin"} {
+			found := false
+			for _, m := range sv.ms {
+				found = found || m.name == want
+			}
+			if !found {
+				run.Violate("archive:missing-member-accepted", "accepted archive has no "+want+" member", []string{op})
+			}
+		}
 		if !bytes.Equal(cat, res.state) {
 			run.Violate("adversarial:state-is-not-the-state-members", "extracted state differs from the state.bin members", []string{op})
 		}
@@ -1235,7 +1252,7 @@ func makeRaft() (*raft.Raft, *recFSM) {
 	if err != nil {
 		panic(err)
 	}
-	deadline := time.Now().Add(20 * time.Second)
+	deadline := time.Now().Add(120 * time.Second)
 	for ra.State() != raft.Leader {
 		if time.Now().After(deadline) {
 			panic("no raft leader")
@@ -1254,7 +1271,7 @@ func runRestore(run *hx.Run, r *hx.RNG, n int) {
 	logger := hclog.NewNullLogger()
 	for i := 0; i < n; i++ {
 		state := genState(r, hx.Pick(r, []int{0, 1, 300, 512, 2000}))
-		if err := ra.Apply(state, 5*time.Second).Error(); err != nil {
+		if err := ra.Apply(state, 120*time.Second).Error(); err != nil {
 			panic(err)
 		}
 		snap, err := snapshot.New(logger, ra)
@@ -1384,7 +1401,7 @@ func main() {
 		st := genState(r, 700)
 		md := genMeta(r, 600)
 		mkBase(run, md, st[:600], "size-from-metadata")
-		emitWrite(run, md, st)      // longer reader
+		emitWrite(run, md, st)       // longer reader
 		emitWrite(run, md, st[:599]) // reader one byte short: write must fail
 		emitWrite(run, md, nil)
 		for k := 0; k < run.Scale(30, 300); k++ {
@@ -1408,10 +1425,10 @@ func main() {
 		switch {
 		case exhaustive[n]:
 			runTruncations(run, b, 1)
-			runFlips(run, r, b, 1, thorough && n <= 2, run.Scale(2, 3))
+			runFlips(run, r, b, 1, thorough && n == 1, run.Scale(2, 3))
 		case n == 4096:
 			runTruncations(run, b, run.Scale(3, 1))
-			runFlips(run, r, b, run.Scale(5, 2), false, 1)
+			runFlips(run, r, b, run.Scale(5, 3), false, 1)
 		default:
 			runTruncations(run, b, run.Scale(7, 2))
 			runFlips(run, r, b, run.Scale(11, 3), false, 1)
@@ -1458,6 +1475,5 @@ func main() {
 	if left, err := os.ReadDir(tmp); err == nil {
 		run.Extra["observation:temp-files-left-behind-by-failed-snapshot.Read"] = len(left)
 	}
-	run.Extra["observation:absent-empty-member"] = "an archive whose (empty) state.bin member was removed is accepted with identical extraction: read hashes an absent member as the empty string (tag observed:empty-state.bin-member-removed; Props/C20.lean missing_member_counterexample)"
 	run.Finish()
 }
